@@ -310,6 +310,14 @@ type c08Inner struct {
 	W string `json:"w,optional"`
 }
 
+// c08Lim: every member is optional or defaulted (one of them through optional=<sibling>), so the struct
+// as a whole need not be supplied
+type c08Lim struct {
+	A int `json:"a,optional"`
+	B int `json:"b,optional=a"`
+	C int `json:"c,default=5"`
+}
+
 type c08Outer struct {
 	In   c08Inner       `json:"in"`
 	Ptr  *c08Inner      `json:"ptr,optional"`
@@ -317,10 +325,11 @@ type c08Outer struct {
 	M    map[string]int `json:"m,optional"`
 	Req  *int           `json:"req,range=[0:9]"`
 	MS   map[string][]int `json:"ms,optional"`
+	Lim  c08Lim           `json:"lim"`
 }
 
-//verif:entry tier=quick,thorough native steps=4000000 maporder=first cover=accepted,rejected,nestedmissing,nestedrange,pointer,slice,mapfield,requiredpointer,nullelement
-//verif:doc Unmarshaler("json").Unmarshal into struct{In Inner; Ptr *Inner optional; List []int optional; M map[string]int optional; Req *int range=[0:9] (required); MS map[string][]int optional (element a list, an empty list or null)} with Inner{V int range=[0:9]; W string optional}: nested maps present or absent, V symbolic in +-2^20 (or missing), list of 0..2 symbolic ints, map of 0..1 entries: accepted iff the required nested struct and its required field are supplied and every supplied V lies in its range; the target then mirrors the input exactly (nested values, pointer allocated only when supplied, slice and map contents).
+//verif:entry tier=quick,thorough native steps=4000000 maporder=first cover=accepted,rejected,nestedmissing,nestedrange,pointer,slice,mapfield,requiredpointer,nullelement,alloptionalabsent
+//verif:doc Unmarshaler("json").Unmarshal into struct{In Inner; Ptr *Inner optional; List []int optional; M map[string]int optional; Req *int range=[0:9] (required); MS map[string][]int optional (element a list, an empty list or null); Lim struct{A optional; B optional=a; C default=5} (absent, empty or filled)} with Inner{V int range=[0:9]; W string optional}: nested maps present or absent, V symbolic in +-2^20 (or missing), list of 0..2 symbolic ints, map of 0..1 entries: accepted iff the required nested struct and its required field are supplied and every supplied V lies in its range; the target then mirrors the input exactly (nested values, pointer allocated only when supplied, slice and map contents).
 func Verif_C08_StructNested() {
 	m := map[string]any{}
 	ok := true
@@ -378,6 +387,14 @@ func Verif_C08_StructNested() {
 		m["ms"] = map[string]any{"k": nil}
 		rt.Cover("nullelement")
 	}
+	// the all-optional nested struct: absent, supplied empty, or supplied with both dependent members
+	limKind := rt.Choose("lim", 3)
+	switch limKind {
+	case 1:
+		m["lim"] = map[string]any{}
+	case 2:
+		m["lim"] = map[string]any{"a": 1, "b": 2}
+	}
 	hasReq := rt.Bool("hasReq")
 	reqV := rt.Int("reqV", -3, 12)
 	if hasReq {
@@ -405,6 +422,14 @@ func Verif_C08_StructNested() {
 	rt.Assert(err == nil, "input meeting all declared constraints is accepted")
 	rt.Assert(int64(t.In.V) == inV && t.In.W == w, "the nested struct holds the supplied values")
 	rt.Assert(t.Req != nil && int64(*t.Req) == reqV, "the required pointer scalar holds the supplied value")
+	if limKind == 0 {
+		rt.Cover("alloptionalabsent")
+	}
+	if limKind == 2 {
+		rt.Assert(t.Lim.A == 1 && t.Lim.B == 2 && t.Lim.C == 5, "the nested struct holds the supplied members and the default")
+	} else {
+		rt.Assert(t.Lim.A == 0 && t.Lim.B == 0 && t.Lim.C == 5, "a nested struct whose members are all optional or defaulted may be absent (or empty) and gets its defaults")
+	}
 	switch msKind {
 	case 1:
 		rt.Assert(len(t.MS) == 1 && len(t.MS["k"]) == 1 && t.MS["k"][0] == 7, "a map of lists holds the supplied lists")
